@@ -1,4 +1,4 @@
-From KV Require Import Base.Prelude Base.Exn Base.Bytes Model.Data Model.Xml Model.XmlTree.
+From KV Require Import Base.Prelude Base.Exn Base.Bytes Model.Data Model.Duration Model.Datetime Model.Xml Model.XmlTree.
 
 (* Python-shaped view of a model value: {"attrs": {...}, "value": v} is an ordinary dict *)
 Definition ATTRS : text := [97;116;116;114;115].
@@ -42,7 +42,10 @@ Inductive case :=
 | CStrip (s : text) (impl : text)
 (* a real document as a plain-form tree: the premises of reader_extracts_tree hold for it, it is the tree's serialisation, and the
    real reader returned the tree's data *)
-| CTree (prolog : text) (t : tree) (doc : text) (impl : val).
+| CTree (prolog : text) (t : tree) (doc : text) (impl : val)
+(* a timestamp as KSR/SKR files write it (offset-less, Z, +00:00) and the instant (seconds since the epoch) the tool's reader made of it, in whatever
+   time zone the process ran *)
+| CStamp (t : text) (impl : option Z).
 
 Definition attrs_eqb (a b : list (text * text)) : bool :=
   val_eqb (VNode (map (fun kv => (fst kv, VStr (snd kv))) a)) (VNode (map (fun kv => (fst kv, VStr (snd kv))) b)).
@@ -86,4 +89,10 @@ Definition check (c : case) : Z :=
   | CTree prolog t doc impl =>
       if negb (wf t) then 2 else if negb (Nat.leb (height t) 5) then 3 else if negb (text_eqb (prolog ++ ser t) doc) then 4
       else if val_eqb (to_py (VNode [(tname t, val_of t)])) impl then 0 else 1
+  | CStamp t impl =>
+      match read_utc t, impl with
+      | Some a, Some b => if a =? b then 0 else 1
+      | None, None => 0
+      | _, _ => 1
+      end
   end.
